@@ -293,7 +293,8 @@ def classify_c06(rec):
             return "oracle-sqlite-right-join-pushdown"
         if re.search(r"(?m)^take [^\n]*\nsort [^\n]*\ntake [^\n]*\n(?:group|aggregate)", prql) and len(re.findall(r"\bLIMIT\b", sql)) <= 1:
             return "F37-takes-merged-across-sort-before-group"
-        if has_let and re.search(r"\bsort\b", prql) and _OVER_NO_ORDER.search(sql):
+        # an OVER clause lost its ORDER BY relative to the base program's SQL (the same window has one there)
+        if has_let and re.search(r"\bsort\b", prql) and len(_OVER_NO_ORDER.findall(sql)) > len(_OVER_NO_ORDER.findall(rec.get("base_sql") or "")):
             return "F62-let-loses-window-order"
         if "UNION ALL" in sql and union_pruned(sql, lab.startswith("let2-append")):
             return "F28-append-prune"
@@ -304,6 +305,8 @@ def classify_c06(rec):
 
 def judge_pair(ck, stream, case, label, rb, rr):
     why = pair_differs(case, rb, rr)
+    if why and os.environ.get("VERIF_DEBUG_F62") and classify_side(rr) == "F62-let-loses-window-order":
+        print("F62?", label, "\n  BASE", rb["prql"].replace("\n", " | "), "\n   ", rb.get("sql"), "\n  RW  ", rr["prql"].replace("\n", " | "), "\n   ", rr.get("sql"))
     if stream == "pointfree" and rr["tag"] == "compile-err":
         ck.stat(stream, "rejected")     # leaving the relation parameter implicit is not a documented form: rejection is fine
         return
@@ -346,6 +349,7 @@ def judge_cases(ck, cases, comp, execd, model):
                 for ii in range(len(c.insts)):
                     rb = dict(recs_b[(t, ii)], label=label)
                     rr = side_record(c, ci, text, t, ii, comp, execd, model, label=label)
+                    rr["base_sql"] = rb.get("sql")
                     ck.count(stream, json.dumps([c.base_text, text, t, c.insts[ii]], sort_keys=True),
                              nontrivial=bool(rb.get("sqlite_rows")) or rb["tag"] != rr["tag"])
                     judge_pair(ck, stream, c, label, rb, rr)
